@@ -713,6 +713,114 @@ def inline_new_helpers(trees: list[ast.Module]) -> list[str]:
     return done
 
 
+def canonical_statements(trees: list[ast.Module]) -> dict[str, int]:
+    """Statement-level normal forms (each an equivalence):
+
+    * ``x = x <op> e``  ->  ``x <op>= e``       (x a plain name; + - *)
+    * ``x = a if c else b``  ->  ``if c: x = a`` / ``else: x = b``
+    * ``xs = []`` directly followed by ``for t in it: [if c:] xs.append(e)``
+      (nothing else in the loop, ``xs`` not read by it / c / e)
+      ->  ``xs = [e for t in it if c]``
+    """
+    n = {"aug": 0, "ifexp": 0, "comp": 0}
+
+    def blocks(tree: ast.AST) -> Iterator[list[ast.stmt]]:
+        for node in ast.walk(tree):
+            for fld in ("body", "orelse", "finalbody"):
+                blk = getattr(node, fld, None)
+                if isinstance(blk, list) and blk and isinstance(
+                        blk[0], ast.stmt):
+                    yield blk
+            if isinstance(node, ast.Try):
+                for h in node.handlers:
+                    yield h.body
+
+    def mentions(e: ast.AST, name: str) -> bool:
+        return any(isinstance(x, ast.Name) and x.id == name
+                   for x in ast.walk(e))
+    for tree in trees:
+        for blk in list(blocks(tree)):
+            i = 0
+            while i < len(blk):
+                st = blk[i]
+                # --- x = x op e
+                if isinstance(st, ast.Assign) and len(st.targets) == 1 \
+                        and isinstance(st.targets[0], ast.Name) \
+                        and isinstance(st.value, ast.BinOp) and isinstance(
+                            st.value.op, (ast.Add, ast.Sub, ast.Mult)) \
+                        and isinstance(st.value.left, ast.Name) \
+                        and st.value.left.id == st.targets[0].id:
+                    new = ast.AugAssign(
+                        target=ast.Name(id=st.targets[0].id, ctx=ast.Store()),
+                        op=st.value.op, value=st.value.right)
+                    blk[i] = ast.copy_location(new, st)
+                    ast.fix_missing_locations(blk[i])
+                    n["aug"] += 1
+                # --- x = a if c else b
+                elif isinstance(st, ast.Assign) and len(st.targets) == 1 \
+                        and isinstance(st.targets[0], ast.Name) \
+                        and isinstance(st.value, ast.IfExp):
+                    v = st.value
+                    t1 = ast.Assign(targets=[ast.Name(id=st.targets[0].id,
+                                                      ctx=ast.Store())],
+                                    value=v.body)
+                    t2 = ast.Assign(targets=[ast.Name(id=st.targets[0].id,
+                                                      ctx=ast.Store())],
+                                    value=v.orelse)
+                    new_if = ast.If(test=v.test, body=[t1], orelse=[t2])
+                    for x in (new_if, t1, t2):
+                        ast.copy_location(x, st)
+                    ast.fix_missing_locations(new_if)
+                    blk[i] = new_if
+                    n["ifexp"] += 1
+                # --- xs = []; for ..: xs.append(e)
+                elif i + 1 < len(blk) and isinstance(blk[i + 1], ast.For) \
+                        and not blk[i + 1].orelse:
+                    tgt = None
+                    if isinstance(st, ast.Assign) and len(st.targets) == 1 \
+                            and isinstance(st.targets[0], ast.Name):
+                        tgt = st.targets[0].id
+                    elif isinstance(st, ast.AnnAssign) and isinstance(
+                            st.target, ast.Name):
+                        tgt = st.target.id
+                    val = getattr(st, "value", None)
+                    loop = blk[i + 1]
+                    if tgt and isinstance(val, ast.List) and not val.elts \
+                            and len(loop.body) == 1:
+                        conds: list[ast.expr] = []
+                        inner: ast.stmt = loop.body[0]
+                        while isinstance(inner, ast.If) and not inner.orelse \
+                                and len(inner.body) == 1:
+                            conds.append(inner.test)
+                            inner = inner.body[0]
+                        if isinstance(inner, ast.Expr) and isinstance(
+                                inner.value, ast.Call) and isinstance(
+                                inner.value.func, ast.Attribute) \
+                                and inner.value.func.attr == "append" \
+                                and isinstance(inner.value.func.value,
+                                               ast.Name) \
+                                and inner.value.func.value.id == tgt \
+                                and len(inner.value.args) == 1 \
+                                and not inner.value.keywords \
+                                and not mentions(loop.iter, tgt) \
+                                and not mentions(inner.value.args[0], tgt) \
+                                and not any(mentions(c, tgt) for c in conds):
+                            comp = ast.ListComp(
+                                elt=inner.value.args[0],
+                                generators=[ast.comprehension(
+                                    target=loop.target, iter=loop.iter,
+                                    ifs=conds, is_async=0)])
+                            new = ast.Assign(
+                                targets=[ast.Name(id=tgt, ctx=ast.Store())],
+                                value=comp)
+                            ast.copy_location(new, st)
+                            ast.fix_missing_locations(new)
+                            blk[i:i + 2] = [new]
+                            n["comp"] += 1
+                i += 1
+    return n
+
+
 def positionalise_calls(trees: list[ast.Module]) -> int:
     """Normal form for calls of package functions: keyword arguments that
     continue the positional prefix are turned into positional arguments
@@ -813,6 +921,8 @@ class Index:
         self.normalised_functions = normalise_function_names(
             [m.tree for m in self.modules.values()])
         self.inlined_helpers = inline_new_helpers(
+            [m.tree for m in self.modules.values()])
+        self.canonical_statements = canonical_statements(
             [m.tree for m in self.modules.values()])
         self.normalised_params = normalise_params(
             [m.tree for m in self.modules.values()])
